@@ -5,6 +5,7 @@ package main
 import (
 	"verifsim/core"
 	"verifsim/engines/e5schema"
+	"verifsim/engines/e6resource"
 )
 
 func main() {
@@ -19,6 +20,7 @@ func main() {
 	}
 
 	reg(e5schema.Engine{}, "C14", "C15", "C16")
+	reg(e6resource.Engine{}, "C17", "C18")
 
 	core.Main(engines, propEngine)
 }
